@@ -65,6 +65,29 @@ func init() {
 			{"", "standardConvertPasswdToKey", "standardConvertPasswdToKey"},
 			{"Rows", "Next", "rowsNext"},
 			{"Rows", "Columns", "rowsColumns"},
+			// sites repaired in round 2 and modelled in round 3
+			{"File", "GetStyle", "GetStyle"},
+			{"File", "getActiveSheetID", "getActiveSheetID"},
+			{"File", "readDefaultFont", "readDefaultFont"},
+			{"File", "GetDefaultFont", "GetDefaultFont"},
+			{"", "ThemeColor", "ThemeColor"},
+			{"File", "GetComments", "GetComments"},
+			{"", "getCellRichText", "getCellRichText"},
+			{"File", "extractCondFmtCellIs", "extractCondFmtCellIs"},
+			{"xlsxWorksheet", "mergeCellsParser", "mergeCellsParser"},
+			{"", "cellInRange", "cellInRange"},
+			{"xlsxMergeCell", "Rect", "mergeCellRect"},
+			{"", "overlapRange", "overlapRange"},
+			{"", "flatMergedCells", "flatMergedCells"},
+			{"File", "mergeOverlapCells", "mergeOverlapCells"},
+			{"", "checkCompoundFileHeader", "checkCompoundFileHeader"},
+			{"", "extractPartLimit", "extractPartLimit"},
+			{"", "agileDecrypt", "agileDecrypt"},
+			{"", "checkAgileEncryptionInfo", "checkAgileEncryptionInfo"},
+			{"", "convertPasswdToKey", "convertPasswdToKey"},
+			{"", "decrypt", "decrypt"},
+			{"", "decryptPackage", "decryptPackage"},
+			{"", "createIV", "createIV"},
 		} {
 			conds, slices, ok := c14Collect(fn[0], fn[1])
 			if !ok {
@@ -73,6 +96,22 @@ func init() {
 			}
 			c14List(w, "conds_"+fn[2], conds)
 			c14List(w, "index_"+fn[2], slices)
+		}
+		// extractStyleCondFuncs: the conditions under which GetStyle indexes the fill / border / font tables
+		if e := constExpr("extractStyleCondFuncs"); e != nil {
+			var entries []string
+			if cl, ok := e.(*ast.CompositeLit); ok {
+				for _, el := range cl.Elts {
+					if kv, ok := el.(*ast.KeyValueExpr); ok {
+						if fl, ok := kv.Value.(*ast.FuncLit); ok && len(fl.Body.List) == 1 {
+							entries = append(entries, c14Norm(src(kv.Key))+": "+c14Norm(src(fl.Body.List[0])))
+						}
+					}
+				}
+			}
+			c14List(w, "extractStyleCondFuncs", entries)
+		} else {
+			fail("var extractStyleCondFuncs")
 		}
 		// ReadZipReader: the size accounting must precede the spill-to-disk branches
 		if fd := funcDecl("File", "ReadZipReader"); fd != nil && fd.Body != nil {
